@@ -166,6 +166,7 @@ def run(chk, tier, seed):
             ("max2", dict(MaxLevel=2, Slots=4, Levels="{0, 1, 2, 3}", MaxLeaves=5 if q else 6, Uniform="FALSE", Export="TRUE")),
             ("max3", dict(MaxLevel=3, Slots=5, Levels="{0, 1, 2}", MaxLeaves=5 if q else 7, Uniform="FALSE", Export="TRUE")),
             ("max255", dict(MaxLevel=255, Slots=4, Levels="{0, 253, 254, 255}", MaxLeaves=4 if q else 5, Uniform="FALSE", Export="TRUE")),
+            ("max300", dict(MaxLevel=300, Slots=4, Levels="{0, 253, 254, 255}", MaxLeaves=4 if q else 5, Uniform="FALSE", Export="TRUE")),
             ("uniform", dict(MaxLevel=0, Slots=8, Levels="{0}", MaxLeaves=33 if q else 70, Uniform="TRUE", Export="TRUE")),
             ("uniform_max5", dict(MaxLevel=5, Slots=8, Levels="{0}", MaxLeaves=34 if q else 40, Uniform="TRUE", Export="TRUE"))]
     total = nontriv = 0
